@@ -41,7 +41,9 @@ KINDS = {
 WS_KINDS = {'sp', 'sp2', 'tab', 'nl', 'nl_ind', 'blank', 'blank3'}
 LINE_LEVEL = {'own_c_ind', 'ml_b_tab', 'ml_b_tab2', 'ml_b_under_own', 'eol_c', 'own_c', 'own_c_blank', 'own_b', 'ml_b', 'doc_b', 'hash_nospace', 'eol_c_blank', 'eol_b_blank', 'own_c_two', 'blank_own_c', 'own_c_blank_after', 'tight_eol_c'}       # comment alone on a line or at the end of one
 CONTEXTS = {'lambda_body': lambda e: 'x:\n' + e, 'top': lambda e: e, 'lead_ws': lambda e: '\n   ' + e,        # lead_ws: the file starts with whitespace (fifth round: gaps were read at shifted offsets)
-            'bindval': lambda e: "{\n  v = " + e.replace("\n", "\n  ") + ";\n}", 'listitem': lambda e: "[\n  " + e.replace("\n", "\n  ") + "\n]"}
+            'bindval': lambda e: "{\n  v = " + e.replace("\n", "\n  ") + ";\n}", 'listitem': lambda e: "[\n  " + e.replace("\n", "\n  ") + "\n]",
+            # seventh round: multi-byte characters before the construct (a reader that mixes byte offsets and character indices reads every later gap shifted)
+            'utf8_lead': lambda e: "{\n  s = \"€😀é\";\n  v = " + e.replace("\n", "\n  ") + ";\n}"}
 NOT_LIST_ITEMS = ('import', 'import_call', 'import_nl', 'import_paren', 'let_let', 'let_let_let', 'let_empty', 'let_empty_set', 'empty_formals', 'empty_formals_at', 'formals_ellipsis_only', 'with_list', 'with_set', 'with_istr', 'with_paren', 'with_call', 'with_multi_list', 'assert_list', 'assert_set', 'lambda_list', 'lambda_set', 'lambda_formals_set', 'let_set', 'let_list', 'if_set', 'call_list', 'call_istr', 'concat_list', 'update_set', 'formal_default_list', 'formal_default_multi', 'not_paren', 'inherit_in_let', 'if_multi', 'if_chain', 'with_multi', 'assert_multi', 'lambda_nl', 'call_multi', 'binary_multi', 'call', 'with', 'assert', 'if', 'lambda_id', 'lambda_formals', 'lambda_formals_multi', 'lambda_at', 'lambda_at_pre', 'let', 'binary', 'chain', 'update', 'has_attr', 'not', 'neg', 'select_or', 'call_set')
 # ---- nesting family: every sequence of up to three wrappers around a leaf, each wrapper with names of its own depth ----
 WRAP = {
